@@ -5,6 +5,7 @@ from vlib.common import Sub, Violation, call, trip, same_multiset, O, G
 from checks.nnlib import pyrepseq, nn, related_queries
 
 PROPERTY = "C07"
+QUICK_SCALE = 4
 RULE = ("random: amino-acid lists built from 2-4 length classes whose members are scattered over the positions by explicit "
         "interleaving patterns (odd class first, alternating, descending, shuffled), near-identical members inside a class, "
         "indel-shifted copies across classes (Levenshtein-1 but not Hamming neighbours), duplicates; exhaustive: all strings of "
